@@ -36,6 +36,29 @@ def handle : List String → String
       let sorted := picked.foldl (fun acc x => insertSorted x acc) []
       s!"picked={".".intercalate (sorted.map toString)} out={showOut out}"
     | _, _, _, _ => "bad-op"
+  -- `fwdx <n> <concurrent> <r> <events|-> <prev>`: the same call on a context that already holds `prev` (`-` = nothing,
+  -- `rc:from` otherwise); additionally what the context holds after the call (`Exec` as the regenerated fact describes it)
+  | ["fwdx", n, c, r, evs, prev] =>
+    let slot? : Option Slot :=
+      if prev == "-" then some none
+      else match prev.splitOn ":" with
+        | [a, b] => match a.toNat?, b.toNat? with
+          | some a, some b => some (some (a, b))
+          | _, _ => none
+        | _ => none
+    match n.toNat?, c.toInt?, r.toNat?, (if evs == "-" then some [] else (evs.splitOn ",").mapM ev?), slot? with
+    | some n, some c, some r, some evs, some slot =>
+      let cl := clamp (Gen.Facts.c14MaxConcurrent.getD 0) c
+      let picked := pick n r cl
+      let out := Refine.C14.collectGen cl 0 evs
+      let sorted := picked.foldl (fun acc x => insertSorted x acc) []
+      let ctx := match keepOf (Gen.Facts.c14ExecInstallsReply.getD false) with
+        | none => "unknown"   -- the entry points are no longer exchange / return the error / SetResponse
+        | some k => match (execWith k slot out).1 with
+          | none => "-"
+          | some (a, b) => s!"{a}:{b}"
+      s!"picked={".".intercalate (sorted.map toString)} out={showOut out} ctx={ctx}"
+    | _, _, _, _, _ => "bad-op"
   -- `cfg <targets> <subset|-> <concurrent> <r>`: the servers (dot-separated ids, sorted) that receive one query of a
   -- forward built by `NewForward` from entries whose own options designate `targets`, through all of them or a tag subset
   | ["cfg", ts, sub, c, r] =>
